@@ -646,12 +646,12 @@ theorem first_round (fx : Fixes) (hk : fx.keepUnrun = true) (ho : fx.oneCorrecti
     (hne : parseFile os f ≠ [])
     (hrun : updateEntriesF fx orc flt (parseFile os f) [] = some cs)
     (hlangs : ∀ e ∈ parseFile os f, e.attrs.languages ≠ [])
-    (hsimple : ∀ c ∈ cs, Simple c)
+    (hsimple : ∀ c ∈ cs, SimpleS ((firstSuffix (splitIncl f)).getD []) c)
     (hse : SufOK '=' ((firstSuffix (splitIncl f)).getD [])) (hsd : SufOK '-' ((firstSuffix (splitIncl f)).getD [])) :
     FirstRound fx os orc flt f cs := by
   -- the original file: leading lines, then the first header
-  generalize hfs : firstSuffix (splitIncl f) = fs at hse hsd
-  generalize hsuf : fs.getD [] = suf at hse hsd
+  generalize hfs : firstSuffix (splitIncl f) = fs at hse hsd hsimple
+  generalize hsuf : fs.getD [] = suf at hse hsd hsimple
   have hfsOf : fsOf suf = fs := by rw [← hsuf]; exact fsOf_getD fs (fun s h => firstSuffix_ne_nil _ s (hfs ▸ h))
   obtain ⟨rest, hlines, hnoh, hrest⟩ := preambleLines_spec fs os (splitIncl f)
   generalize hpre : preambleLines fs os (splitIncl f) = pre at hlines hnoh
@@ -727,7 +727,8 @@ theorem first_round (fx : Fixes) (hk : fx.keepUnrun = true) (ho : fx.oneCorrecti
 
 /-- `update_idempotent_general` (model with the committed repairs): for every corpus file — with or without text
 in front of its first test, updated with or without a name filter — whose (filtered) update run writes
-`Simple` corrections, whose tests satisfy `EntryOKG` (at least one language; `:cst` tests allowed; expectation
+corrections that are `SimpleS` for the file's suffix (so, in a suffixed file, inputs and expectations may contain
+un-suffixed `===`/`---` lines), whose tests satisfy `EntryOKG` (at least one language; `:cst` tests allowed; expectation
 empty / a balanced S-expression, resp. trimmed CST text; usable parser answer) and have the attribute flags
 their attribute text stands for, a second identical update leaves the file byte-identical. -/
 theorem update_idempotent_general (fx : Fixes) (hk : fx.keepUnrun = true) (ho : fx.oneCorrection = true)
@@ -737,7 +738,7 @@ theorem update_idempotent_general (fx : Fixes) (hk : fx.keepUnrun = true) (ho : 
     (hrun : updateEntriesF fx orc flt (parseFile os f) [] = some cs)
     (hent : ∀ e ∈ parseFile os f, EntryOKG orc e)
     (hcanon : ∀ e ∈ parseFile os f, e.attrs = flagsOf os e.name e.attrsStr)
-    (hsimple : ∀ c ∈ cs, Simple c)
+    (hsimple : ∀ c ∈ cs, SimpleS ((firstSuffix (splitIncl f)).getD []) c)
     (hse : SufOK '=' ((firstSuffix (splitIncl f)).getD [])) (hsd : SufOK '-' ((firstSuffix (splitIncl f)).getD [])) :
     updateFileF fx os orc flt (updateFileF fx os orc flt f) = updateFileF fx os orc flt f := by
   obtain ⟨hall, hbuilt, hform⟩ := first_round fx hk ho hsp hkc os orc flt f cs hne hrun
@@ -776,7 +777,7 @@ theorem update_passes_general (fx : Fixes) (hk : fx.keepUnrun = true) (ho : fx.o
     (hrun : updateEntriesF fx orc flt (parseFile os f) [] = some cs)
     (hent : ∀ e ∈ parseFile os f, EntryOKG orc e)
     (hcanon : ∀ e ∈ parseFile os f, e.attrs = flagsOf os e.name e.attrsStr)
-    (hsimple : ∀ c ∈ cs, Simple c)
+    (hsimple : ∀ c ∈ cs, SimpleS ((firstSuffix (splitIncl f)).getD []) c)
     (hse : SufOK '=' ((firstSuffix (splitIncl f)).getD [])) (hsd : SufOK '-' ((firstSuffix (splitIncl f)).getD [])) :
     All2 (PassesAfterG orc flt) (parseFile os f) (parseFile os (updateFileF fx os orc flt f)) := by
   obtain ⟨hall, hbuilt, _⟩ := first_round fx hk ho hsp hkc os orc flt f cs hne hrun
@@ -873,7 +874,7 @@ theorem update_idempotent_unfiltered (fx : Fixes) (hk : fx.keepUnrun = true) (ho
     (hrun : updateEntries fx orc (parseFile os f) [] = some cs)
     (hent : ∀ e ∈ parseFile os f, EntryOKG orc e)
     (hcanon : ∀ e ∈ parseFile os f, e.attrs = flagsOf os e.name e.attrsStr)
-    (hsimple : ∀ c ∈ cs, Simple c)
+    (hsimple : ∀ c ∈ cs, SimpleS ((firstSuffix (splitIncl f)).getD []) c)
     (hse : SufOK '=' ((firstSuffix (splitIncl f)).getD [])) (hsd : SufOK '-' ((firstSuffix (splitIncl f)).getD [])) :
     updateFile fx os orc (updateFile fx os orc f) = updateFile fx os orc f := by
   have := update_idempotent_general fx hk ho hsp hkc os orc (fun _ => true) f cs hne
